@@ -106,6 +106,12 @@ def configs(quick):
         one(f"angle[{b}]", {"x0": "angle"}, b)
         one(f"periodic[{b}]", {"x0": "periodic"}, b)
         one(f"angle-radial[{b}]", {"angle": {"parameters": ["x0", "x1"]}}, b, "unit")
+    # uniform prime prior on angles that do not cover the full circle / do not start at zero
+    for b, sc in (("sym", 1.0), ("halfpi", 1.0), ("0pi", 1.0), ("2pi", 1.0), ("unit", 2.0), ("sym", 0.5), ("pmpi", 1.0)):
+        # (the other parameter gets a prime prior too, otherwise the proposal does not use any)
+        one(f"angle-uniform-prime-prior[{b},scale={sc}]", {"x0": {"reparameterisation": "angle", "prior": "uniform", "scale": sc}, "x1": {"reparameterisation": "rescaletobounds", "prior": "uniform", "update_bounds": False}}, b)
+    for b in ("0pi", "halfpi", "unit"):
+        one(f"to-cartesian-uniform-prime-prior[{b}]", {"x0": {"reparameterisation": "to-cartesian", "prior": "uniform"}, "x1": {"reparameterisation": "rescaletobounds", "prior": "uniform", "update_bounds": False}}, b)
     one("angle-2pi", {"x0": "angle-2pi"}, "2pi")
     one("angle-pi", {"x0": "angle-pi"}, "0pi")
     one("angle-sine", {"x0": "angle-sine"}, "0pi")
